@@ -305,7 +305,7 @@ class Context:
                 if getter is UNDEFINED and setter is UNDEFINED:
                     value = descriptor.get("value")
                     if value is not UNDEFINED:
-                        obj.set(prop_name, value)
+                        obj.define_property(prop_name, value)
 
             return obj
 
